@@ -50,6 +50,7 @@ type Obligation struct {
 	ModelQ   []string          // terms to evaluate when a model is found
 	ModelTag map[string]string // term -> role label for replay
 	Alts     []string          // vacuity: alternative goals, any one of which suffices
+	NoAx     bool              // vacuity retry: leave out the quantified background axioms (weaker check, noted in Solver)
 	Clause   ast.Expr          // the contract clause (conjunct) behind a post obligation, for replay
 	ClausePkg string
 	idx      int               // position in script
@@ -419,6 +420,9 @@ func (s *Script) render(ob *Obligation, extra []string, getValues []string) stri
 	}
 	for _, c := range s.cmds {
 		if c.kind == cDecl && axIn[c.name] {
+			if ob.Cover && ob.NoAx && strings.Contains(c.text, "(forall ") {
+				continue
+			}
 			b.WriteString(c.text)
 			b.WriteByte('\n')
 		}
@@ -473,6 +477,11 @@ var solvers = []solverSpec{
 	{"z3-4.8.12", func(f string, t int) []string { return []string{"z3", fmt.Sprintf("-t:%d", t), f} }},
 	{"cvc5-1.0", func(f string, t int) []string {
 		return []string{"cvc5", "--strings-exp", fmt.Sprintf("--tlimit=%d", t), "--produce-models", f}
+	}},
+	// E-matching only: decides quantified goals whose triggers are explicit in a fraction of a second
+	// and answers `unknown` (never a wrong `sat`) otherwise
+	{"z3-5.1.0-ematch", func(f string, t int) []string {
+		return []string{"z3-new", fmt.Sprintf("-t:%d", t), "smt.auto_config=false", "smt.mbqi=false", f}
 	}},
 }
 
@@ -591,6 +600,12 @@ func solveText(text string, file string, o SolveOpts) solveResult {
 	if o.Single {
 		quick = o.TimeoutMs
 	}
+	if !o.Single && strings.Contains(text, "(forall (") {
+		if re := runSolver(solvers[len(solvers)-1], file, quick); re.status == "unsat" {
+			noteSolve(re)
+			return re
+		}
+	}
 	r := runSolver(solvers[0], file, quick)
 	noteSolve(r)
 	if r.status == "sat" || r.status == "unsat" || o.Single {
@@ -688,6 +703,11 @@ func matchParen(s string, start int) int {
 	return -1
 }
 
+func (s *Script) hasBoundQuantifiers() bool {
+	// struct-slice quantifiers with explicit triggers (see triggers.go) mark the script
+	return s.declSet["qarr:used"]
+}
+
 // solve all obligations with a worker pool
 func solveAll(obs []*Obligation, o SolveOpts) {
 	// first pass: one incremental process per function (only its `unsat` answers are kept)
@@ -706,7 +726,9 @@ func solveAll(obs []*Obligation, o SolveOpts) {
 		var bw sync.WaitGroup
 		sem := make(chan struct{}, 16)
 		for i, sc := range scripts {
-			if len(byScript[sc]) < 4 {
+			if len(byScript[sc]) < 4 || sc.hasBoundQuantifiers() {
+				// (quantified specifications: the incremental mode mostly times out on them, while the
+				// sliced standalone queries are decided by E-matching in a fraction of a second)
 				continue
 			}
 			bw.Add(1)
@@ -760,6 +782,19 @@ func solveOb(ob *Obligation, o SolveOpts) {
 			ob.Status, ob.Solver, ob.Seconds, ob.Raw = r.status, r.solver, r.secs, r.out
 			if r.status == "sat" {
 				break
+			}
+		}
+		if ob.Status != "sat" && !ob.NoAx {
+			// last resort: the same alternatives without the quantified background axioms (injectivity
+			// of interior references etc.), which keep a solver from answering `sat`
+			ob.NoAx = true
+			for _, alt := range ob.Alts {
+				ob.Goal = alt
+				r := solveText(ob.script.render(ob, nil, nil), obFile(o.Dir, ob), o)
+				if r.status == "sat" {
+					ob.Status, ob.Solver, ob.Seconds, ob.Raw = r.status, r.solver+" (without quantified axioms)", r.secs, r.out
+					break
+				}
 			}
 		}
 		ob.Goal = full
